@@ -304,7 +304,12 @@ pub struct CliCase {
     /// --passthru instead of -A/-B: every line is printed, the non-matching ones as context
     #[serde(default)]
     pub passthru: bool,
+    /// -U with a pattern that can match a line terminator (the multi-line searcher)
+    #[serde(default)]
+    pub multiline: bool,
 }
+
+const ML_PATTERNS: &[&str] = &["\\w+\\n\\w+", "ab\\n", "c\\s+a", "b\\n(?:z|a)?", "(?s)ab.{1,3}c"];
 
 pub fn gen_cli_case(t: &mut Tape) -> CliCase {
     let big = t.chance(1, 5);
@@ -325,6 +330,18 @@ pub fn gen_cli_case(t: &mut Tape) -> CliCase {
         before: t.small(2),
         count: t.chance(1, 8),
         passthru: t.chance(1, 6),
+        multiline: false,
+    }
+    .with_multiline(t)
+}
+
+impl CliCase {
+    fn with_multiline(mut self, t: &mut Tape) -> CliCase {
+        if t.chance(1, 6) {
+            self.multiline = true;
+            self.pattern = t.pick(ML_PATTERNS).to_string();
+        }
+        self
     }
 }
 
@@ -352,6 +369,9 @@ fn run_cli(case: &CliCase, dir: &TempDir, mode: BinMode) -> (String, crate::cli:
     }
     if case.count {
         rg = rg.arg("-c");
+    }
+    if case.multiline {
+        rg = rg.arg("-U");
     }
     rg = rg.arg("-e").arg(&case.pattern);
     match case.access {
@@ -517,6 +537,7 @@ pub fn check_cli(case: &CliCase) -> Verdict {
     info.class_if((65533..=65539).contains(&nul), "nul_at_64KiB_boundary");
     info.class_if(case.after + case.before > 0 && !case.passthru, "context");
     info.class_if(case.passthru, "passthru");
+    info.class_if(case.multiline, "multiline");
     info.class_if(!p.records.is_empty() && cut, "cut_after_lines_printed");
     Verdict::Pass(info)
 }
